@@ -1046,6 +1046,20 @@ def gen_large_graph(rng, kind, n):
                             for a, b in ((0, 1), (1, 2), (2, 3), (3, 0), (3, 4))])
     elif kind == "isolated":
         e = np.zeros((0, 2), dtype=np.int64)
+    elif kind == "hub":
+        # one atom with 255..700 partners (the per-atom bond count passes 8 bits), then three-atom molecules and atoms
+        # without any bond
+        d = int(rng.choice([255, 256, 257, 300, 511, 512, 513, 700]))
+        d = min(d, n - 1)
+        ed = [(0, i) for i in range(1, d + 1)]
+        i = d + 1
+        while i < n:
+            if i + 2 < n and rng.random() < 0.5:
+                ed += [(i, i + 1), (i + 1, i + 2)]
+                i += 3
+            else:
+                i += 1
+        e = np.array(ed, dtype=np.int64).reshape(-1, 2)
     elif kind == "grid":
         w = max(2, int(np.sqrt(n)))
         ids = np.arange(n)
@@ -1073,8 +1087,10 @@ def case_molecules_large(rng, ctx):
     if deep_ok:
         sizes += [10000, 30000]
     kind = str(rng.choice(["path", "path", "ring", "comb", "deep_tree", "star", "two_paths", "small_molecules",
-                           "isolated", "grid", "dense"]))
+                           "isolated", "grid", "dense", "hub", "hub"]))
     n = int(rng.choice(sizes))
+    if kind == "hub":
+        n = int(rng.choice([700, 1000, 1500]))
     if kind == "dense":
         n = int(rng.choice([150, 300, 500]))   # get_all_bonds is (n, max degree); DFS depth close to n
     if kind == "star":
